@@ -122,8 +122,8 @@ def main(argv=None):
             rep = r.detail.get('replay') or {}
             if rep.get('reproduced') is True:
                 viol.append((r, True))
-            elif rep.get('reproduced') is False and not rep.get('trust_solver'):
-                # the model did not reproduce on the real code: engine discrepancy -> undecided
+            elif rep.get('reproduced') is False and rep.get('from_model'):
+                # the solver's own model, replayed on the real code, does not show the violation: engine discrepancy -> undecided
                 undec.append(r)
             else:
                 # no concrete failing input available: only a violation if this obligation is known to
